@@ -1,7 +1,8 @@
 (** C08 for the option sets the drivers use (gen/Gen_ScanOpts.v is dumped from the tree under
     test on every run): the finite side condition and the specialised statements. *)
 From Coq Require Import List NArith ZArith Bool Lia.
-From Atlas Require Import Base.Bytes Lex.LexModel Lex.LexProofs gen.Gen_ScanOpts.
+From Atlas Require Import Base.Bytes Lex.LexModel Lex.LexProofs Lex.LexDirective gen.Gen_ScanOpts.
+From Atlas Require Lint.LintNolintModel.
 Import ListNotations.
 Open Scope Z_scope.
 
@@ -67,3 +68,50 @@ Proof.
   eapply Forall_impl; [|exact HF]. intros st (sh & H1 & H2 & H3 & H4).
   exists sh. repeat split; auto. apply Line_bounds. exact H4.
 Qed.
+
+(** every member of a statement's [Comments] is a terminated comment of the input (exactly which
+    ones: the [GapCs] premise of [LosslessG]). *)
+Lemma scan_comments o inp ss st c :
+  scan o inp = Ok ss -> In st ss -> In c (Comments st) -> InGap o inp c.
+Proof.
+  intros H Hst Hc. destruct (scan_losslessG _ _ _ H) as (hdr & d0 & rest & -> & _ & HL).
+  pose proof (losslessG_comments _ _ _ _ _ HL hdr) as HF.
+  pose proof (proj1 (Forall_forall _ _) HF _ Hst) as HF2.
+  exact (proj1 (Forall_forall _ _) HF2 _ Hc).
+Qed.
+
+Lemma scan_pos_bounds o inp ss st : scan o inp = Ok ss -> In st ss -> 0 <= Pos st <= zlen inp.
+Proof.
+  intros H Hst. destruct (scan_losslessG _ _ _ H) as (hdr & d0 & rest & -> & _ & HL).
+  pose proof (losslessG_positions _ _ _ _ _ HL hdr eq_refl) as HF.
+  destruct (proj1 (Forall_forall _ _) HF _ Hst) as (sh & _ & _ & _ & Hb). exact Hb.
+Qed.
+
+Lemma scan_line_cr o inp ss st : scan o inp = Ok ss -> In st ss ->
+  Line inp (Pos st) = Ok (count_nl (strip_cr (firstn (Z.to_nat (Pos st)) inp)) + 1).
+Proof. intros H Hst. apply Line_cr. eapply scan_pos_bounds; eauto. Qed.
+
+(** [Stmt.Directive(name)] returns exactly the directives of the statement's own comments: each
+    result comes from one member [c] of [Comments st] (a terminated comment of the input, which
+    ones: [GapCs]) through [comment_directive], in the order of the comments. *)
+Lemma scan_stmt_directive o inp ss st nm :
+  scan o inp = Ok ss -> In st ss ->
+  Stmt_Directive st nm = flat_map (LintNolintModel.comment_directive nm) (Comments st) /\
+  (forall d, In d (Stmt_Directive st nm) ->
+     exists c, In c (Comments st) /\ In d (LintNolintModel.comment_directive nm c) /\ InGap o inp c) /\
+  (Comments st = [] -> Stmt_Directive st nm = []).
+Proof.
+  intros H Hst. split; [reflexivity|]. split.
+  - intros d Hd. unfold Stmt_Directive, LintNolintModel.Stmt_Directive in Hd.
+    apply in_flat_map in Hd as (c & Hc & Hd). exists c. split; [exact Hc|]. split; [exact Hd|].
+    eapply scan_comments; eauto.
+  - intros E. unfold Stmt_Directive. rewrite E. reflexivity.
+Qed.
+
+Lemma scan_directives_spec o nm inp :
+  scan_directives o nm inp =
+    match scan o inp with
+    | Ok ss => Ok (map (fun st => (Pos st, Stmt_Directive st nm)) ss)
+    | Err e => Err e | Panic => Panic | OutOfFuel => OutOfFuel
+    end.
+Proof. reflexivity. Qed.
